@@ -17,6 +17,7 @@ pub mod metrics;
 pub mod net;
 pub mod pipe;
 pub mod rules;
+pub mod services;
 pub mod shutdown;
 pub mod socks;
 pub mod tunnel;
